@@ -724,6 +724,14 @@ func GenExec(t *rapid.T, f Features) *ExecCase {
 				}
 			default:
 				mt = Array(Vec(4, g.numKind()), 1+g.intn(3, "uan"))
+				if f.Matrices && f.Floats && g.chance(30, "uam") && !f.off("uniform.array-of-matrix") {
+					// arrays (one or two levels) of matrices with 3 or 4 rows (16-byte columns, valid in uniform space)
+					g.class("uniform:array-of-matrix")
+					mt = Array(Mat(2+g.intn(3, "uamc"), 3+g.intn(2, "uamr"), F32), 1+g.intn(2, "uamn"))
+					if g.chance(50, "uam2") {
+						mt = Array(mt, 1+g.intn(2, "uamn2"))
+					}
+				}
 			}
 			us.Members = append(us.Members, &Member{Name: g.name("m"), T: mt})
 		}
